@@ -130,7 +130,14 @@ def bounds(ctx):
     tests = [norm(n.test) for n in walk_local(op) if isinstance(n, ast.If)]
     R.check('len(self.in_sdu) < 2 + self.in_sdu_length' in tests and 'len(self.in_sdu) != 2 + self.in_sdu_length' in tests, rule, f'{LE}.on_pdu | completion test', 'SDU complete iff len(in_sdu) == 2 + length',
             f'completion/overflow tests changed: {[t for t in tests if "in_sdu" in t]}', p.loc(op))
-    sink = [slice_parts(c.args[0]) for c in calls_in(op) if dotted(c.func) == 'self.sink' and c.args]
+    def _through_local(e):
+        # the delivered value may be held in a local while the reassembly buffer is reset
+        if isinstance(e, ast.Name):
+            defs_ = [n for n in walk_local(op) if isinstance(n, ast.Assign) and dotted(n.targets[0]) == e.id]
+            if len(defs_) == 1:
+                return defs_[0].value
+        return e
+    sink = [slice_parts(_through_local(c.args[0])) for c in calls_in(op) if dotted(c.func) == 'self.sink' and c.args]
     R.check(sink == [('self.in_sdu', '2', None)], rule, f'{LE}.on_pdu | delivery', 'sink receives in_sdu[2:]', f'sink receives {sink}', p.loc(op))
     acc = [n for n in walk_local(op) if isinstance(n, ast.AugAssign) and dotted(n.target) == 'self.in_sdu']
     start = [n for n in walk_local(op) if isinstance(n, ast.Assign) and dotted(n.targets[0]) == 'self.in_sdu' and norm(n.value) == 'pdu']
